@@ -45,7 +45,11 @@ static inline void myth_verif_rd(volatile void * p) { if (p == (volatile void *)
 
 myth_barrier_t B;
 struct myth_running_env ENV;
-struct myth_thread TH[6];
+#ifndef WM_N
+#define WM_N 4
+#endif
+#define WM_N_MAX (WM_N + 2)
+struct myth_thread TH[WM_N_MAX];        /* WM_N_MAX >= WM_N + 2 */
 volatile long * verif_word(void) { return &B.state; }
 void (*keep_env)(volatile long *) = myth_verif_env_step;
 
